@@ -27,6 +27,9 @@ def plan(tier: str, seed: int) -> Plan:
     for ms in ([1, 2, 3] if thorough else [1, 2]):
         conds.append(Condition(f"errors-text:len{ms}", "errors", H, "errors_text", {"maxs": ms}, T * 2, required=False,
                                bounds=f"last token: symbolic str len<={ms} (documented extensions excluded), array length<=3, symbolic primitive"))
+    conds.append(Condition("options-history", "history", H, "options_history", {}, T, required=False,
+                           bounds="10 pointer texts with backslash / percent escapes; one earlier parse of the same text under symbolic options, then "
+                                  "the decoding-off parse (symbolic uri_decode) must read the text per RFC 6901; symbolic leaf"))
     conds.append(Condition("index-render", "errors", H, "index_render", {}, T, bounds="index 0..12 rendered as decimal text, array length<=4"))
     return Plan(
         conditions=conds,
